@@ -486,6 +486,9 @@ def _secp_cases(rng, T):
     out.append(case("secp-verify-len-pk31-lead0-removed", "verify", "secp", pklz[1:], b"lead0", plz["sig"], strict=True))
     out.append(case("secp-verify-len-pk33-zero-prepended", "verify", "secp", b"\x00" + pklz, b"lead0", plz["sig"], strict=True))
     out.append(case("secp-verify-len-pk33-byte-appended", "verify", "secp", pklz + b"\x00", b"lead0", plz["sig"], strict=True))
+    # the 33-byte SEC1 compressed form of the same key (02/03 prefix): BIP340 keys are x-only, 33 bytes must be refused
+    for pre in (b"\x02", b"\x03", b"\x04"):
+        out.append(case("secp-verify-len-pk33-sec1-prefix", "verify", "secp", pre + pklz, b"lead0", plz["sig"], strict=True))
     ks, ms, sgs = _find_s_lead0(cv)
     pks = r_pubkey(cv, ks)
     out.append(case("secp-verify-valid", "verify", "secp", pks, ms, sgs, strict=True))
@@ -580,7 +583,8 @@ def _small_cases(rng, T, cname):
         for x in range(0, p + 2):
             out.append(case("%s-verify-pk-all" % cname, "verify", cname, r_b32(x), m, parts["sig"], strict=True))
         sg = parts["sig"]
-        for (pkx, sgx, nm) in [(pk[1:], sg, "pk31-lead0-removed"), (b"\x00" + pk, sg, "pk33"), (pk + b"\x00", sg, "pk33-appended"),
+        for (pkx, sgx, nm) in [(pk[1:], sg, "pk31-lead0-removed"), (b"\x00" + pk, sg, "pk33"), (b"\x02" + pk, sg, "pk33-sec1-02"),
+                               (b"\x03" + pk, sg, "pk33-sec1-03"), (pk + b"\x00", sg, "pk33-appended"),
                                (pk, sg[:32] + sg[33:], "sig63-lead0-of-s-removed"), (pk, sg[1:], "sig63-lead0-of-r-removed"),
                                (pk, sg + b"\x00", "sig65-appended"), (pk, b"\x00" + sg, "sig65-prepended"),
                                (pk[1:], sg[1:], "both-short"), (b"", b"", "empty")]:
@@ -674,3 +678,9 @@ def coq_equation(c, mr):
         r = "Err " + mr[1] if mr[0] == "err" else "Ok (%d, %d)%%Z" % (mr[1][0], mr[1][1])
         return "c12_lift_x %d %s = %s" % (cv["p"], coq_bytes(a[1]), r)
     return None
+
+
+# ops whose answer must not depend on the concrete bytes-like type of their arguments (they agree on the pinned tree;
+# tools/bytearray_probe.py); common.py re-runs a sample of their cases with bytearray arguments
+BYTEARRAY_OPS = {'sign', 'lift_x', 'verify', 'pubkey_of_key'}
+MEMORYVIEW_OPS = {'lift_x', 'verify', 'sign', 'pubkey_of_key'}
